@@ -744,7 +744,7 @@ fn gen_for_shape<S: Shape>(shape: &str, rng: &mut Rng, thorough: bool, cases: &m
             }
         }
     }
-    for target in [400usize, 513, 600, 1000, 4096, 10_000, 100_000, 1_000_000] {
+    for target in [400usize, 513, 600, 1000, 4096, 10_000, 100_000] {
         if !thorough && target > 10_000 {
             continue;
         }
